@@ -232,7 +232,7 @@ func (w *World) R87Decls(r *oblig.Report, rule string) {
 		rules[upperFirst(n)] = true
 	}
 	seenRule := map[string]bool{}
-	bad := 0
+	bad, dispatch := 0, 0
 	for _, d := range f.Decls {
 		fd, ok := d.(*ast.FuncDecl)
 		if !ok {
@@ -242,7 +242,30 @@ func (w *World) R87Decls(r *oblig.Report, rule string) {
 		if fd.Recv != nil {
 			st, ok := fd.Recv.List[0].Type.(*ast.StarExpr)
 			if !ok || fmt.Sprint(st.X) != "OpenFGAParser" {
-				continue // methods of the context types
+				// methods of the context types: EnterRule / ExitRule of <Rule>Context hand the context to the
+				// listener's Enter<Rule> / Exit<Rule> and to no other callback
+				if ok && (fd.Name.Name == "EnterRule" || fd.Name.Name == "ExitRule") && strings.HasSuffix(fmt.Sprint(st.X), "Context") && fd.Body != nil {
+					ruleName := strings.TrimSuffix(fmt.Sprint(st.X), "Context")
+					if !rules[ruleName] {
+						continue
+					}
+					want := strings.TrimSuffix(fd.Name.Name, "Rule") + ruleName
+					var called []string
+					ast.Inspect(fd.Body, func(n ast.Node) bool {
+						if ce, ok := n.(*ast.CallExpr); ok {
+							if se, ok := ce.Fun.(*ast.SelectorExpr); ok && (strings.HasPrefix(se.Sel.Name, "Enter") || strings.HasPrefix(se.Sel.Name, "Exit")) {
+								called = append(called, se.Sel.Name)
+							}
+						}
+						return true
+					})
+					dispatch++
+					if len(called) != 1 || called[0] != want {
+						bad++
+						r.Bad(rule, "gen-decls:dispatch:"+ruleName+"."+fd.Name.Name, pos, fmt.Sprintf("%sContext.%s calls %v on the listener; ANTLR generates exactly one call, of %s: a listener sees this rule entered or left the wrong number of times, or under a name no grammar rule has", ruleName, fd.Name.Name, called, want))
+					}
+				}
+				continue
 			}
 			if rules[fd.Name.Name] {
 				seenRule[fd.Name.Name] = true
@@ -270,7 +293,11 @@ func (w *World) R87Decls(r *oblig.Report, rule string) {
 			r.Bad(rule, "gen-decls:missing:"+name, rel(w.Root, path), "grammar rule "+name+" has no parser method in the generated Go file")
 		}
 	}
+	if dispatch != 2*len(rules) {
+		bad++
+		r.Bad(rule, "gen-decls:dispatch-count", rel(w.Root, path), fmt.Sprintf("%d EnterRule/ExitRule methods found for %d grammar rules: each rule context has one of each", dispatch, len(rules)))
+	}
 	if bad == 0 {
-		r.OK(rule, "gen-decls", rel(w.Root, path), "declared-set", fmt.Sprintf("%d parser methods, one per grammar rule; only generated constructors at package level", len(seenRule)))
+		r.OK(rule, "gen-decls", rel(w.Root, path), "declared-set", fmt.Sprintf("%d parser methods, one per grammar rule; only generated constructors at package level; %d EnterRule/ExitRule methods each call the one listener callback of their rule", len(seenRule), dispatch))
 	}
 }
